@@ -30,7 +30,7 @@ COMPONENTS = {
     "real": ["eolib.data.EoWriter (sanitisation on)", "eolib.data.EoReader (chunked mode)", "codecs"],
     "stub_or_harness": ["sender/receiver scripts (version-skewed read plans)", "expected-value computation"],
 }
-PROBES = ["mode_reassigned_mid_stream", "generated_serializer_session", "unsanitised_y_in_header", "overread_spanning_integer", "empty_chunk", "string_only_y_diaeresis", "last_chunk_overread",
+PROBES = ["mode_reassigned_mid_stream", "generated_serializer_session", "generated_deserializer_session", "unsanitised_y_in_header", "overread_spanning_integer", "empty_chunk", "string_only_y_diaeresis", "last_chunk_overread",
           "underread_then_surplus", "first_byte_y_diaeresis", "last_byte_y_diaeresis", "one_char_y_diaeresis"]
 FAULT_KINDS = ["under_read", "over_read"]
 
@@ -93,6 +93,15 @@ def generate(streams, tier):
             "skip": [rng.random() < 0.3 for _ in range(6)], "extra": [rng.random() < 0.3 for _ in range(6)],
         }
         plan["generated"]["a"] = (plan["generated"]["a"] + "abc")[:3]
+    elif rng.random() < 0.05:
+        # the RECEIVER is a generated deserializer; the sender is a hand-driven EoWriter of another protocol version
+        if rng.random() < 0.5:
+            plan["generated_rx"] = {"template": "List", "names": [rng.choice(["", "", pool.get(vr), gen_string(vr, max_len=4)])
+                                                                  for _ in range(rng.randrange(0, 6))], "after": pool.get(vr)}
+        else:
+            plan["generated_rx"] = {"template": "Pairs", "tag": gen_int_in_range(vr, "char"),
+                                    "pairs": [[gen_int_in_range(vr, "char"), gen_int_in_range(vr, "short"),
+                                               rng.choice(["exact", "exact", "short", "long"])] for _ in range(rng.randrange(0, 6))]}
     return plan
 
 
@@ -111,7 +120,14 @@ def c06_tree():
     t = skeleton_tree()
     t["net/protocol.xml"] = _HDR + """<protocol>
     <enum name="PacketFamily" type="byte"><value name="Talk">1</value></enum>
-    <enum name="PacketAction" type="byte"><value name="Tell">1</value><value name="Report">2</value></enum>
+    <enum name="PacketAction" type="byte"><value name="Tell">1</value><value name="Report">2</value><value name="List">3</value><value name="Pairs">4</value></enum>
+    <struct name="Pair">
+        <chunked>
+            <field name="id" type="char"/>
+            <field name="amount" type="short"/>
+            <break/>
+        </chunked>
+    </struct>
     <struct name="InnerChunked">
         <chunked>
             <field name="a" type="string"/>
@@ -139,7 +155,21 @@ def c06_tree():
         </chunked>
     </packet>
 """
-    t["net/server/protocol.xml"] = _HDR + "<protocol>\n" + packet % ("Tell", "InnerChunked") + packet % ("Report", "InnerPlain") + "</protocol>\n"
+    rx = """    <packet family="Talk" action="List">
+        <chunked>
+            <length name="count" type="char"/>
+            <array name="names" type="string" length="count" delimited="true"/>
+            <field name="after" type="string"/>
+        </chunked>
+    </packet>
+    <packet family="Talk" action="Pairs">
+        <field name="tag" type="char"/>
+        <chunked>
+            <array name="pairs" type="Pair"/>
+        </chunked>
+    </packet>
+"""
+    t["net/server/protocol.xml"] = _HDR + "<protocol>\n" + packet % ("Tell", "InnerChunked") + packet % ("Report", "InnerPlain") + rx + "</protocol>\n"
     return t
 
 
@@ -200,6 +230,51 @@ def run_generated(plan, env, res, tr, fail):
     return None
 
 
+def run_generated_rx(plan, env, res, tr, fail):
+    """Sender = hand-driven EoWriter (sanitisation on) of another protocol version; receiver = generated deserializer."""
+    g = plan["generated_rx"]
+    EoWriter = importlib.import_module("eolib.data.eo_writer").EoWriter
+    EoReader = importlib.import_module("eolib.data.eo_reader").EoReader
+    srv = importlib.import_module("eolib.protocol._generated.net.server")
+    w = EoWriter()
+    res.count("probe.generated_deserializer_session")
+    if g["template"] == "List":
+        w.string_sanitization_mode = True
+        w.add_char(len(g["names"]))
+        for n in g["names"]:
+            w.add_string(n)
+            w.add_byte(0xFF)
+        w.add_string(g["after"])
+        data = bytes(w.to_bytearray())
+        obj = srv.TalkListServerPacket.deserialize(EoReader(data))
+        got = (tuple(obj.names), obj.after)
+        want = (tuple(image(n) for n in g["names"]), image(g["after"]))
+    else:
+        w.add_char(g["tag"])
+        w.string_sanitization_mode = True
+        want_pairs = []
+        for pid, amount, skew in g["pairs"]:
+            w.add_char(pid)
+            if skew == "short":          # an older sender: the amount field does not exist yet
+                want_pairs.append((pid, 0))
+            else:
+                w.add_short(amount)
+                want_pairs.append((pid, amount))
+                if skew == "long":       # a newer sender: extra fields this receiver does not know
+                    w.add_three(12345)
+                    w.add_string("new")
+            w.add_byte(0xFF)
+        data = bytes(w.to_bytearray())
+        obj = srv.TalkPairsServerPacket.deserialize(EoReader(data))
+        got = (obj.tag, tuple((p.id, p.amount) for p in obj.pairs))
+        want = (g["tag"], tuple(want_pairs))
+    tr.ev("generated_rx", g["template"], data.hex(), repr(got))
+    if got != want:
+        return fail("field-value", "generated-deserializer",
+                    f"{g['template']}: chunks written as {want!r} were deserialized as {got!r} (wire {data.hex()})", 0)
+    return None
+
+
 def execute(plan, env):
     load(env)
     EoWriter = importlib.import_module("eolib.data.eo_writer").EoWriter
@@ -216,6 +291,9 @@ def execute(plan, env):
 
     if plan.get("generated"):
         if run_generated(plan, env, res, tr, fail) is not None:
+            return res
+    if plan.get("generated_rx"):
+        if run_generated_rx(plan, env, res, tr, fail) is not None:
             return res
     w = EoWriter()
     header = plan.get("header", [])
